@@ -86,6 +86,10 @@ Next ==
         /\ ~e.panic
         /\ LET r == StStep(st, e) IN r[1] = TRUE /\ st' = r[2]
         /\ UNCHANGED <<cm, tseq>> /\ Memoize(e)
+     ELSE IF "xabort" \in DOMAIN e THEN
+          \* a call outside the domain of its own property, placed in a history on purpose (C20):
+          \* not judged; only remembered, so that later executions are compared with it
+          /\ UNCHANGED <<cm, st, tseq>> /\ Memoize(e)
      ELSE /\ ~e.panic
           /\ Stateless(e) = TRUE      \* "= TRUE": evaluate the judge as a value, not as an action
           /\ UNCHANGED <<cm, st, tseq>> /\ Memoize(e)
